@@ -1540,6 +1540,12 @@ variant('b-websockets-drain-loop-removed', ['C01'], 'rsocket/transports/websocke
 variant('b-aiohttp-server-feeder-not-started', ['C01'], AIO,
         "        await transport.handle_incoming_ws_messages()\n        return ws", "        return ws",
         ('C01.i', 'the feeder is started'))
+variant('b-tcp-payload-not-written', ['C02', 'C01'], 'rsocket/transports/tcp.py',
+        "            frame.write_data_metadata(self._writer.write)\n", "", ('C', 'TransportTCP.send_frame'))
+variant('b-tcp-payload-before-prefix', ['C02'], 'rsocket/transports/tcp.py',
+        "            self._writer.write(serialize_prefix_with_frame_size_header(frame))\n            frame.write_data_metadata(self._writer.write)",
+        "            frame.write_data_metadata(self._writer.write)\n            self._writer.write(serialize_prefix_with_frame_size_header(frame))",
+        ('C02.e', 'TransportTCP.send_frame'))
 variant('b-send-error-noop', ['C12'], RB,
         "        self.send_frame(exception_to_error_frame(stream_id, exception))",
         "        logger().error('error on stream %s: %s', stream_id, exception)", ('C12.b', 'RSocketBase.send_error'))
